@@ -253,3 +253,15 @@ void h_convert_freq(void) { /* arbitrary frequencies 1..10^9 */
         if (of != nf && t > 1000000000000ULL) WITNESS("convert_u64 large ticks");
     }
 }
+void h_convert_freq_remainder(void) { /* the documented remainder for arbitrary frequencies */
+    uint64_t t = nd_u64(), of = nd_u64(), nf = nd_u64(), rem = nd_u64();
+    ASSUME(of >= 1 && of <= FREQ_MAX && nf >= 1 && nf <= FREQ_MAX);
+    (void)aws_timestamp_convert_u64(t, of, nf, &rem);
+    if (nf < of && of % nf == 0) {
+        ASSERT(rem == t % (of / nf), "convert_u64: remainder = ticks mod (old/new) when old is a multiple of new");
+        WITNESS("remainder computed");
+    } else {
+        ASSERT(rem == 0, "convert_u64: remainder is 0 unless the old frequency is a larger multiple of the new one");
+        if (nf < of) WITNESS("coarser but not a divisor: remainder 0");
+    }
+}
